@@ -1,6 +1,7 @@
 package metadata
 
 import (
+	"fmt"
 	"strings"
 
 	"github.com/llir/llvm/internal/enc"
@@ -40,8 +41,16 @@ func dispFlagsString(flags enum.DISPFlag) string {
 	return strings.Join(ss, " | ")
 }
 
-// TODO: fix string representation for all enums which are defined in the
-// grammar as `FooEnum | FooInt`, in the same way as dwarfTagString.
+// enumOrIntString returns the string representation of the given enum, which is
+// defined in the grammar as `FooEnum | FooInt`. Values without an enum name are
+// printed as plain integers (e.g. "200" rather than "DwarfAttEncoding(200)").
+func enumOrIntString(v fmt.Stringer) string {
+	s := v.String()
+	if pos := strings.IndexByte(s, '('); pos != -1 && strings.HasSuffix(s, ")") {
+		return s[pos+len("(") : len(s)-len(")")]
+	}
+	return s
+}
 
 // dwarfTagString returns the string representation of the given Dwarf tag.
 func dwarfTagString(tag enum.DwarfTag) string {
